@@ -34,9 +34,9 @@ static const char* const kCfg =
         ARDUINOJSON_ENABLE_COMMENTS) "n" IXA_STR(ARDUINOJSON_ENABLE_NAN) "i" IXA_STR(ARDUINOJSON_ENABLE_INFINITY) "u" IXA_STR(ARDUINOJSON_DECODE_UNICODE);
 
 // ------------------------------------------------------------------------------------------------ dimensions
-enum Kind { K_CSTR, K_SIZED, K_STRING, K_SVIEW, K_ISTREAM, K_READER, K_FLASH, K_FLASHN, K_ASTRING, K_ASTREAM, K_JVC, K_JV, NKINDS };
-static const char* const kKindName[NKINDS] = {"cstr", "sized", "string", "sview", "istream", "reader", "flash", "flashn", "String", "Stream", "jvconst", "jv"};
-static const bool kZeroTerminated[NKINDS] = {true, false, false, false, false, false, true, false, false, false, true, true};
+enum Kind { K_CSTR, K_SIZED, K_STRING, K_SVIEW, K_ISTREAM, K_READER, K_FLASH, K_FLASHN, K_ASTRING, K_ASTREAM, K_JVC, K_JV, K_RANGE, NKINDS };
+static const char* const kKindName[NKINDS] = {"cstr", "sized", "string", "sview", "istream", "reader", "flash", "flashn", "String", "Stream", "jvconst", "jv", "range"};
+static const bool kZeroTerminated[NKINDS] = {true, false, false, false, false, false, true, false, false, false, true, true, false};
 
 static const int kLimits[] = {0, 1, 2, 3, 10, 255};
 static const int NLIMITS = 6, DEFAULT_LIMIT = 4;  // index of 10
@@ -206,6 +206,52 @@ struct Result {
   size_t consumed = 0;
 };
 
+// An iterator range over NON-contiguous storage: the bytes live in 3-byte blocks, each in its own exactly-sized heap
+// block, so that anything that treats the range as one contiguous buffer is an ASan report (or a different document).
+struct SegSource {
+  static constexpr size_t B = 3;
+  std::vector<char*> blocks;
+  size_t n = 0;
+  SegSource() {}
+  SegSource(const SegSource&) = delete;
+  ~SegSource() { clear(); }
+  void clear() {
+    for (char* b : blocks) free(b);
+    blocks.clear();
+    n = 0;
+  }
+  void assign(const char* p, size_t len) {
+    clear();
+    n = len;
+    for (size_t i = 0; i < len; i += B) {
+      size_t k = std::min(B, len - i);
+      char* b = static_cast<char*>(malloc(k));
+      memcpy(b, p + i, k);
+      blocks.push_back(b);
+    }
+  }
+  struct const_iterator {
+    typedef std::random_access_iterator_tag iterator_category;
+    typedef char value_type;
+    typedef ptrdiff_t difference_type;
+    typedef const char* pointer;
+    typedef const char& reference;
+    const SegSource* s = nullptr;
+    size_t i = 0;
+    const char& operator*() const { return s->blocks[i / B][i % B]; }
+    const_iterator& operator++() { ++i; return *this; }
+    const_iterator operator++(int) { const_iterator t = *this; ++i; return t; }
+    const_iterator& operator+=(ptrdiff_t d) { i = size_t(ptrdiff_t(i) + d); return *this; }
+    const_iterator operator+(ptrdiff_t d) const { const_iterator t = *this; t += d; return t; }
+    ptrdiff_t operator-(const const_iterator& o) const { return ptrdiff_t(i) - ptrdiff_t(o.i); }
+    bool operator<(const const_iterator& o) const { return i < o.i; }
+    bool operator==(const const_iterator& o) const { return i == o.i; }
+    bool operator!=(const const_iterator& o) const { return i != o.i; }
+  };
+  const_iterator begin() const { const_iterator it; it.s = this; it.i = 0; return it; }
+  const_iterator end() const { const_iterator it; it.s = this; it.i = n; return it; }
+};
+
 struct Input {
   bool mp = false;
   const std::string* bytes = nullptr;
@@ -221,6 +267,7 @@ struct Input {
   MemReader rd;
   MemStream st;
   JsonDocument owned, linked;
+  SegSource seg;
 };
 
 template <class... In>
@@ -302,6 +349,7 @@ inline DeserializationError invoke(Env& E, Input& I, int kind, bool onZt, JsonDo
       JsonVariant v = I.linked.as<JsonVariant>();
       return desJson(E, doc, li, fi, v);
     }
+    case K_RANGE: return des(E, mp, doc, li, fi, static_cast<const SegSource&>(I.seg));
   }
   return DeserializationError::Ok;
 }
@@ -460,6 +508,7 @@ struct Evaluator {
     I.rich = rich;
     if (rich) {
       I.s = bytes;
+      I.seg.assign(bytes.data(), n);
       I.as.assignBytes(bytes.data(), n);
       if (I.as.length() != n || memcmp(I.as.c_str(), bytes.data(), n) != 0) E.C.fail("harness", "the Arduino String stub does not hold the bytes");
       I.iss.clear();
@@ -608,6 +657,18 @@ inline std::vector<CorpusItem> corpus(size_t maxFile) {
   r.push_back({false, "longnum-array.json", "[" + std::string(66, '1') + "]"});
   r.push_back({false, "longnum-top.json", "-0." + std::string(62, '0') + "1e-5"});
   r.push_back({false, "longnum-member.json", "{\"a\":" + std::string(64, '9') + ",\"b\":1}"});
+  // \u escapes of every UTF-8 length class and every surrogate situation
+  r.push_back({false, "esc-classes.json", "[\"\\u0041\\u00e9\\u20ac\\ud83d\\ude00\"]"});
+  r.push_back({false, "esc-lone-high.json", "\"\\ud83d\""});
+  r.push_back({false, "esc-lone-low.json", "\"\\ude00\""});
+  r.push_back({false, "esc-high-high-low.json", "\"\\ud83d\\ud83d\\ude00\""});
+  r.push_back({false, "esc-key.json", "{\"\\ud834\\udd1e\":1}"});
+  // repeated keys whose replaced value owns resources (strings, containers, extension slots): released and re-used while parsing
+  r.push_back({false, "dup-strings.json", "{\"a\":\"x\",\"a\":\"x\",\"b\":\"x\"}"});
+  r.push_back({false, "dup-containers.json", "{\"a\":[1,[2]],\"a\":{\"b\":\"a\"},\"a\":\"a\"}"});
+  r.push_back({false, "dup-extensions.json", "{\"a\":1.5e300,\"a\":18446744073709551615,\"a\":null}"});
+  r.push_back({false, "dup-nested.json", "{\"a\":{\"a\":{\"a\":1}},\"a\":[\"a\"]}"});
+  r.push_back({true, "dup-strings.msgpack", std::string("\x83\xa1" "a\xa1x\xa1" "a\xa1x\xa1" "b\xa1x", 13)});
   return r;
 }
 
